@@ -47,6 +47,7 @@ func vfResetGlobals() *vfCounterEntropy {
 	ent := &vfCounterEntropy{}
 	SetEntropy(ent)
 	refTime = vrt.Epoch0
+	vfBatchMode, vfBatchPartial = false, false
 	return ent
 }
 
